@@ -98,6 +98,15 @@ def run_variant(repo, world, variant, deadline_s=None):
     """Symbolically execute every path of the variant and discharge all
     obligations.  -> dict (JSON-able)."""
     t0 = time.time()
+    # variants register contracts / hooks on the shared world in setup(): start each from the same baseline
+    base = getattr(world, "_baseline", None)
+    if base is None:
+        world._baseline = base = {k: dict(getattr(world, k)) for k in ("config", "contracts", "loop_contracts", "custom_globals")
+                                  if isinstance(getattr(world, k, None), dict)}
+    for k, v in base.items():
+        d = getattr(world, k)
+        d.clear()
+        d.update(v)
     ex = Exec(repo, world)
     ex.max_arity = variant.max_arity
     ex.loop_bound = variant.loop_bound
